@@ -160,6 +160,23 @@ func runC02(t *testing.T, c simrt.Chooser, o Opts) *Out {
 		// an over-long comment line in the middle of the exclusion list: entries after it are
 		// still exclusions (or the scan must refuse to start)
 		lines := cleanExclude(s.Exclude)
+		if len(lines) > 0 && p.pct("mappedexclude", 50) {
+			// one exclusion entry is spelled in the IPv4-mapped IPv6 form: it is honoured as the
+			// IPv4 entry it denotes, or the list is refused - it is never silently skipped
+			all := append([]string{}, lines...)
+			k := p.n("mpos", len(all))
+			if i := strings.IndexByte(all[k], '/'); i >= 0 {
+				var bits int
+				fmt.Sscanf(all[k][i+1:], "%d", &bits)
+				all[k] = fmt.Sprintf("::ffff:%s/%d", all[k][:i], 96+bits)
+			} else {
+				all[k] = "::ffff:" + all[k]
+			}
+			w.Files[excludeFn] = strings.Join(all, "\n") + "\n"
+			eitherRefusalOrScan = true
+			simrtFault(out, "exclude-mapped-spelling")
+			break
+		}
 		k := p.n("pos", len(lines)+1)
 		long := "# " + strings.Repeat("x", 70000)
 		all := append(append(append([]string{}, lines[:k]...), long), lines[k:]...)
